@@ -43,6 +43,11 @@ PROPS = {
             "rule": "sessions: operation scripts (see C09/C10) plus acknowledgement scripts: windows 1..100 announced and re-announced mid-stream, "
                     "bursts of small messages delivered in fixed pieces of 1..W+1 bytes; non-trivial = at least three operations",
             "explanation": "oracle C17.ack_exactly_when_due: from call sizes and the calls where the peer's window announcements complete (spec decoder), recompute in which calls an Acknowledgement is due and its value; compare with the real packets"},
+    "C18": {"components": ["server", "client", "chunk"],
+            "rule": "sessions: the operation scripts of C09/C10/C17 with clock readings around 2^24 and 2^32 ms and media calls with droppable flags; chunk: serializer op sequences; "
+                    "non-trivial = at least three operations",
+            "explanation": "oracles on the real packets: C18.decodable (independent spec decoder, one well-formed message per packet), with all / alternate droppable packets removed, droppable only when asked, "
+                           "messages stamped with the call's clock / caller's timestamp and stream (C18.messages_carry_expected_timestamp_and_stream); histories with a failed call = known finding K2"},
     "C16": {"components": ["chunk"], "rule": CHUNK_RULE,
             "explanation": "oracle C06.foreign_stream restricted to interleaved streams (every second fde case)"},
     "C04": {"components": ["amf0"], "rule": AMF0_RULE,
